@@ -105,8 +105,26 @@ def confirm(exe, case_json):
     return "REPLAY-CONFIRMED" in p.stdout, p.stdout.strip()[:2000]
 
 
+def families_for(pid):
+    """own families first; then the families that exercise what the property inherits: the operations
+    that establish the shape invariant (C01: constructors, insert/remove, caught panics) and the
+    view constructors (C03)"""
+    fams = list(FAMILIES.get(pid, []))
+    try:
+        pm = json.load(open(os.path.join(VERIF, "contracts", "properties.json")))["properties"].get(pid, {})
+    except Exception:
+        pm = {}
+    extra = []
+    for q in pm.get("inherits", []):
+        extra += {"C01": ["ctor", "insrem", "panicsafe"], "C03": ["views", "ctor"]}.get(q, FAMILIES.get(q, []))
+    for f in extra:
+        if f not in fams:
+            fams.append(f)
+    return fams
+
+
 def search(repo, pid, violation=None):
-    fams = FAMILIES.get(pid, [])
+    fams = families_for(pid)
     tried = []
     for profile in ("release", "debug"):
         try:
